@@ -259,6 +259,11 @@ static void check_dataset(void)
             FAIL("acf-lag0", "acf[0]=%g pacf[0]=%g", acf0[0], pacf0[0]);
             goto out;
         }
+        /* the documented way to look at the coefficients is the correlogram printer, which insists (release
+         * assertion) on values within [-1, 1]: it must be able to print what ACF and PACF computed for any data */
+        cmb_dataset_correlogram_print(&ds, devnull, lag, acf0);
+        cmb_dataset_correlogram_print(&ds, devnull, lag, pacf0);
+        cmb_dataset_correlogram_print(&ds, devnull, lag, NULL);
         /* up to which lag is the PACF recursion well-conditioned for this ACF? */
         unsigned plag = lag;
         {
